@@ -89,6 +89,8 @@ def lemma_jobs(N, excl, onl, names=None, heavyN=None, deep=0, hexN=6):
             if onl:
                 hooks['only_obligations'] = onl
             hooks['max_findall'] = L // 4 + 1
+            if L > n:
+                hooks['compact'] = True    # the deep jobs were measured with constant-tree compaction on (L = 11: 30-70 s)
             jobs.append(('regex/operators.' + h, dict(fixlen={'t': L}, params={'alpha': 1 if L > n else 0}, unwind=6 * (N + extra) + 8, unwind_by_func={'dontUseFlagsForMetaCharacters': L // 4 + 1},
                                                        hooks=hooks, exclude=excl, timeout_ms=90000)))
     return jobs
